@@ -1,6 +1,7 @@
 package b2fx
 
 import (
+	"strings"
 	"fmt"
 	"math/rand"
 
@@ -65,7 +66,13 @@ func GenScenario(r *rand.Rand, nMax int) (*Scenario, error) {
 	gen := func(n int, prefix, from, to string) ([]MsgSpec, error) {
 		var out []MsgSpec
 		for i := 0; i < n; i++ {
-			m := GenMsg(r, GenMID(r, prefix, i), from, to)
+			mid := GenMID(r, prefix, i)
+			if i > 0 && r.Intn(5) == 0 && out[i-1].MID == strings.ToUpper(out[i-1].MID) {
+				// a MID that differs from the previous message's only in the case of its letters:
+				// MIDs are case-sensitive identifiers, these are two messages
+				mid = strings.ToLower(out[i-1].MID)
+			}
+			m := GenMsg(r, mid, from, to)
 			c, err := m.Canonical()
 			if err != nil {
 				return nil, fmt.Errorf("%s: %w", m.Shape, err)
